@@ -49,7 +49,9 @@ def find_id3v1(fileobj, v2_version=4, known_frames=None):
     data = fileobj.read(128 + extra_read)
     fileobj.seek(old_pos, 0)
     try:
-        idx = data.index(b"TAG")
+        # the tag is at most 128 bytes long, a "TAG" in the bytes
+        # in front of that is not its start
+        idx = data.index(b"TAG", max(0, len(data) - 128))
     except ValueError:
         return (None, 0)
     else:
